@@ -58,7 +58,7 @@ CHECKS.update({
 
  'C02': dict(level='model_checking', technique='explicit-state BFS over DB operation sequences; in every reached state exhaustive enumeration of iterator movement sequences on every range and view against a cursor model; same enumeration on merged/indexed component iterators',
    text='For every state reached by sequences of puts, deletes, batches, compactions, snapshots and transactions (layout-forcing options, bytewise and shortlex), for the DB, each live snapshot and the open transaction, and for every range with bounds in {nil} plus 7 probes: every sequence of First/Last/Next/Prev/Seek(p) up to the stated depth runs on a fresh iterator and is compared move by move with a cursor over the sorted live pairs. Component level: NewMergedIterator over every assignment of <=5 keys to 3 children, NewIndexedIterator over every split into runs.',
-   note='Movement depth 2-3 (quick) / 3-4 (thorough); table and memdb iterators are enumerated in C13 / C14.', design='4/C02'),
+   note='Movement depth 2-4 (quick) / 3-4 (thorough); table and memdb iterators are enumerated in C13 / C14.', design='4/C02'),
 
  'C14': dict(level='model_checking', technique='exhaustive operation-sequence enumeration on the real memdb against a sorted-map model, plus stateless DFS over schedules at statement granularity (vrewrite -stmt) of one writer against readers',
    text='Every sequence to the depth over Put (3 keys x 4 values) / Delete / Reset; after each Len, Size, Get/Contains/Find on probes and, at the deepest levels, every movement sequence on 27 ranges; iterators positioned before the last operation of every sequence (First/Last/Seek) and moved after it must not panic, stay monotone and yield only pairs stored at some time. Concurrent: scheduling points before every statement of package memdb; a writer (overwrite changing the value length, delete) against 1-2 readers under every schedule within the deviation bound; readers see strictly monotone keys and only pairs stored at some time.',
@@ -82,22 +82,23 @@ NA = {}
 
 # Additions of rounds 8-9 (appended to the level text of the check).
 EXTRA = {
+ 'C15': ' The pair and separator laws also run over a second universe of user keys over {0x00,0x01,a,b,0xfe,0xff} (neighbouring byte values and the 0xff ceiling), length <= 3.',
  'C01': ' Option sets added later: throttle (level-0 slowdown/pause triggers) and tightcomp (every compaction size limit at its minimum). Point reads are made twice, with and without DontFillCache.',
- 'C02': ' Component level also covers merged and indexed iterators over a child whose source fails at its k-th positioning call: the parent stops with that error or answers like the model, never wrongly with Error()==nil.',
+ 'C02': ' Component level also covers merged and indexed iterators over a child whose source fails at its k-th positioning call: the parent stops with that error or answers like the model, never wrongly with Error()==nil. Walks of depth 4 also start from states with eight keys in one-entry blocks (one level-0 table, a deeper table, two level-0 tables, a transaction\'s table).',
  'C03': ' One of the option sets has a bloom filter per 16-byte block (versions of one key straddle filter ranges).',
- 'C04': ' Histories include file numbers leaked by a discarded transaction before a rotation; post-recovery writes use values distinct from the history and contents are checked after every reopen. Two concurrent drivers recover the image after EVERY storage operation of a window that contains compactions, and a synced write made after recovery must survive a plain reopen.',
+ 'C04': ' Histories include file numbers leaked by a discarded transaction before a rotation; post-recovery writes use values distinct from the history and contents are checked after every reopen. Two concurrent drivers recover the image after EVERY storage operation of a window that contains compactions, and a synced write made after recovery must survive a plain reopen. Histories include multi-entry batches whose journal record spans blocks (a cut in a later chunk must not replay the leading entries).',
  'C05': ' Drivers are searched in two phases (all of them up to bound 1 first, then deeper), so a short budget cuts depth and not breadth. Added: a Write leading a merging group after the batch pool was used, throttled writers, a reader that does not fill the caches, and views put together while a write buffer holding EARLIER writes is rotated (wide option set; second base schedule at the full bound).',
- 'C06': ' Also in the throttle and tightcomp option sets.',
+ 'C06': ' Also in the throttle and tightcomp option sets. Every configuration is searched to depth 4 in the quick tier.',
  'C07': ' Concurrent drivers can ask for the residue check after 120 virtual seconds of settling: writers racing CompactRange, with a commit that fails once (manifest sync fault) and with removed tables handing their numbers back.',
  'C08': ' Read-back also goes through an iterator (scan, Seek, reversal: no silent skipping); a flipped byte in a TABLE read is judged with the full oracle; the residue oracle also applies after journal create/write/sync faults (known finding F-C07-JR); batches handed to Write are re-checked after every later operation; histories in the throttle option set (writers and commits waiting for a failing table compaction).',
  'C09': ' Added: throttle histories and drivers, the evict option set, rotation with a failed journal creation next to a table compaction, and the session file-number allocator (alloc / reuse / mark) from several goroutines under all bounded interleavings (everybody returns, numbers in use distinct and below the next).',
  'C10': ' "Visible together": every snapshot taken during the window must equal the state after a whole number of journal records (drivers with a snapshot taken while a multi-batch group is applied); per-write NoWriteMerge.',
  'C12': ' Every stream is consumed twice, through Read and through ReadByte; record contents include all-zero and one-repeated-byte records (what a reader buffer holds beyond the data), and nothing may be yielded that the cut stream no longer holds in full.',
  'C13': ' The key universe ends with a 0xff-led key (index key from Successor); the grid includes readers behind a cache that keeps nothing once a handle is released and a cache without replacement policy.',
- 'C14': ' A released iterator handle is released a second time while later iterators are live.',
+ 'C14': ' A released iterator handle is released a second time while later iterators are live. Movement sequences of depth 3 on every range in the quick tier.',
  'C16': ' Every byte of the filter block (and its trailer) is damaged in three patterns under strict and non-strict readers: answers must stay exact.',
  'C17': ' Operations include failing constructors and get-only lookups racing on one key, followed by a successful fill.',
- 'C18': ' Every crash image (after each mutating storage operation, tails lost/kept) of a few histories is opened read-only in audit mode and, on a copy, normally: the read-only open succeeds where the normal one does, serves the same contents and performs no mutating storage operation.',
+ 'C18': ' Every crash image (after each mutating storage operation, tails lost/kept) of a few histories is opened read-only in audit mode and, on a copy, normally: the read-only open succeeds where the normal one does, serves the same contents and performs no mutating storage operation. Sequence search to depth 4 (quick) / 5 (thorough).',
  'C19': ' Damage enumeration also on multi-block tables with a bloom filter; point reads are compared with the scan right after Recover; every table read of Recover fails once (error reported, or the fault-free result, also after a retry).',
  'C20': ' Seeks refill one key buffer in place between consecutive calls; batches handed to Write are kept by the caller and re-checked after every later operation.',
 }
